@@ -34,10 +34,10 @@ LT == {"lead", "trail"}
 Alpha7 == <<{}, {"lead"}, {"trail"}, LT, LT \cup {"bl0"}, LT \cup {"br0"}, {"pres"}>>
 Alpha9 == Alpha7 \o <<LT \cup {"bl0", "br0"}, LT \cup {"bl1", "br1"}>>
 \* step model: preserved or any combination of lead/trail with a box kind
-BoxKinds == {{}, {"bl0"}, {"br0"}, {"bl0", "br0"}, {"bl1", "br1"}, {"bl0", "br1"}, {"bl1"}, {"br1"}, {"bl0", "br0", "bl1", "br1"}}
-SetToSeq(S) == CHOOSE f \in [1..Cardinality(S) -> S] : \A x \in S : \E i \in DOMAIN f : f[i] = x
-AlphaStep == SetToSeq({{"pres"}, {"pres", "lead", "trail", "bl0", "br0"}}
-                      \cup {l \cup k : l \in {{}, {"lead"}, {"trail"}, LT}, k \in BoxKinds})
+LeadKinds == <<{}, {"lead"}, {"trail"}, LT>>
+BoxKindSeq == <<{}, {"bl0"}, {"br0"}, {"bl0", "br0"}, {"bl1", "br1"}, {"bl0", "br1"}, {"bl1"}, {"br1"}, {"bl0", "br0", "bl1", "br1"}>>
+AlphaStep == <<{"pres"}, {"pres", "lead", "trail", "bl0", "br0"}>>
+             \o [i \in 1..36 |-> LeadKinds[((i - 1) \div 9) + 1] \cup BoxKindSeq[((i - 1) % 9) + 1]]
 
 VARIABLES box, st, consumed, out, lastc, lasto
 vars == <<box, st, consumed, out, lastc, lasto>>
